@@ -2,9 +2,9 @@
 # seedmatrix.sh [seed-dir ...]: run every confirmed seed against the check of its property (quick tier),
 # record in its meta.json what was run and what the check said. Patches that no longer apply are reported.
 cd /verif
-seeds=("$@"); [ ${#seeds[@]} -gt 0 ] || seeds=(seeded/*/)
+seeds=("$@"); [ ${#seeds[@]} -gt 0 ] || seeds=(/verif/seeded/*/)
 for d in "${seeds[@]}"; do
-  d=${d%/}; name=$(basename "$d"); P=${name%-*}; V=${name#*-}
+  d=$(realpath "${d%/}"); name=$(basename "$d"); P=${name%-*}; V=${name#*-}
   [ -f "$d/patch.diff" ] || continue
   extra=""; case "$P" in C02) extra="C01";; C03) extra="C02";; esac
   if ! git -C /repo apply --check "$d/patch.diff" 2>/dev/null; then
